@@ -2854,7 +2854,9 @@ impl Typer {
                 }
 
                 if !field_map.is_empty() {
-                    let extra = field_map.keys().cloned().collect::<Vec<_>>().join(", ");
+                    let mut extra = field_map.keys().cloned().collect::<Vec<_>>();
+                    extra.sort();
+                    let extra = extra.join(", ");
                     super::util::push_error(
                         diagnostics,
                         format!(
